@@ -159,6 +159,40 @@ Theorem C16_fcTL :
          |} /\ seq (fst (parse_fctl s)) = Some n.
 Proof. exact codec_fctl. Qed.
 
+(* cICP: colour primaries, transfer function, matrix coefficients 0, full-range flag *)
+Theorem C16_cICP :
+  forall (s : dstate) (cp tf fr : Z),
+       fr = 0 \/ fr = 1 ->
+       before_plte_and_idat s = true ->
+       anc_has KCicp (the_info s) = false ->
+       c_raw s = [cp; tf; 0; fr] -> parse_cicp s = (upd_info s (anc_set KCicp [cp; tf; 0; fr]), Ok ENothing).
+Proof. exact codec_cicp. Qed.
+
+(* mDCV: red/green/blue/white chromaticities (stored order) reported as white/red/green/blue doubled, then max and min luminance *)
+Theorem C16_mDCV :
+  forall (s : dstate) (rx ry gx gy bx by_ wx wy mx mn : Z),
+       0 <= rx < 65536 ->
+       0 <= ry < 65536 ->
+       0 <= gx < 65536 ->
+       0 <= gy < 65536 ->
+       0 <= bx < 65536 ->
+       0 <= by_ < 65536 ->
+       0 <= wx < 65536 ->
+       0 <= wy < 65536 ->
+       u32 mx ->
+       u32 mn ->
+       before_plte_and_idat s = true ->
+       anc_has KMdcv (the_info s) = false ->
+       c_raw s =
+       to_be16 rx ++
+       to_be16 ry ++
+       to_be16 gx ++
+       to_be16 gy ++ to_be16 bx ++ to_be16 by_ ++ to_be16 wx ++ to_be16 wy ++ to_be32 mx ++ to_be32 mn ->
+       parse_mdcv s =
+       (upd_info s (anc_set KMdcv [wx * 2; wy * 2; rx * 2; ry * 2; gx * 2; gy * 2; bx * 2; by_ * 2; mx; mn]),
+        Ok ENothing).
+Proof. exact codec_mdcv. Qed.
+
 (* text chunks: keyword (1..79 bytes without NUL) and payload are split at the first NUL *)
 Theorem C16_text_keyword_split :
   forall kw txt : list Z,
@@ -231,6 +265,8 @@ Print Assumptions C16_sRGB.
 Print Assumptions C16_acTL.
 Print Assumptions C16_cLLI.
 Print Assumptions C16_fcTL.
+Print Assumptions C16_cICP.
+Print Assumptions C16_mDCV.
 Print Assumptions C16_text_keyword_split.
 Print Assumptions C16_first_occurrence_wins.
 Print Assumptions C16_duplicates_are_errors_in_the_parser.
